@@ -155,7 +155,7 @@ def run_verus(force=False):
         json.dump(result, open(res_path, 'w'), indent=1)
         # keep the last few cache entries only
         ents = sorted(glob.glob(os.path.join(CACHE, 'v', '*')), key=os.path.getmtime)
-        for e in ents[:-6]: shutil.rmtree(e, ignore_errors=True)
+        for e in ents[:-60]: shutil.rmtree(e, ignore_errors=True)
         return result
     finally:
         if not os.environ.get('VERIF_KEEP'):
@@ -386,7 +386,7 @@ def run_kani(harnesses, jobs=None, timeout_s=None):
                 if r['status'] in ('success', 'failed'):
                     json.dump(r, open(os.path.join(CACHE, 'k', base, h['name'].replace('::', '__') + '.json'), 'w'), indent=1)
     ents = sorted(glob.glob(os.path.join(CACHE, 'k', '*')), key=os.path.getmtime)
-    for e in ents[:-6]: shutil.rmtree(e, ignore_errors=True)
+    for e in ents[:-60]: shutil.rmtree(e, ignore_errors=True)
     return results
 
 
